@@ -54,9 +54,11 @@ def shortest (m : Nat) (e : Int) : Nat × Int :=
       let hi := lo + 1
       let okLo := lo > 0 && ofDecimal false lo (-s) == target
       let okHi := ofDecimal false hi (-s) == target
-      -- distance comparison: 2·(x − lo) vs 1
+      -- distance comparison: 2·(x − lo) vs 1.  An exact tie goes UP (flt2dec `format_shortest`:
+      -- "rounding up when … both conditions were triggered and tie breaking prefers rounding up",
+      -- `mant·2 ≥ scale`), e.g. 1000000000000000.25 prints as `1000000000000000.3`
       let r2 := 2 * (xn % xd)
-      let pickLo := r2 < xd || (r2 == xd && lo % 2 == 0)
+      let pickLo := r2 < xd
       if okLo && okHi then (if pickLo then (lo, -s) else (hi, -s))
       else if okLo then (lo, -s)
       else if okHi then (hi, -s)
